@@ -19,6 +19,7 @@ mod c16;
 mod c11;
 mod c12;
 mod c10;
+mod c17;
 
 use rayon::prelude::*;
 
@@ -66,6 +67,7 @@ fn check(id: &str, tier: &str, seed: u64) -> i32 {
         "C13" => "C13",
         "C11" => "C11",
         "C10" => "C10",
+        "C17" => "C17",
         "C12" => "C12",
         "C16" => "C16",
         "C19" => "C19",
@@ -116,6 +118,7 @@ fn check(id: &str, tier: &str, seed: u64) -> i32 {
         "C16" => c16::run_c16(tier, seed),
         "C11" => c11::run_c11(tier, seed),
         "C10" => c10::run_c10(tier, seed),
+        "C17" => c17::run_c17(tier, seed),
         "C12" => c12::run_c12(tier, seed),
         "C19" => build_checks::run_c19(tier, seed),
         "C20" => build_checks::run_c20(tier, seed),
@@ -141,6 +144,10 @@ fn replay_file(path: &std::path::Path) -> Result<Option<String>, String> {
         Some("c09") | Some("c13") | Some("c19") | Some("c20") => {
             let rep: build_checks::ProgReplay = serde_json::from_value(v).map_err(|e| e.to_string())?;
             build_checks::replay_prog(&rep)
+        }
+        Some("c17") => {
+            let rep: c17::C17Replay = serde_json::from_value(v).map_err(|e| e.to_string())?;
+            c17::replay_c17(&rep)
         }
         Some("c10") => {
             let rep: build_checks::ProgReplay = serde_json::from_value(v).map_err(|e| e.to_string())?;
@@ -192,17 +199,18 @@ fn replay(path: &str) -> i32 {
 
 /// Development aid: acceptance / compile statistics of the program generator.
 fn probe(args: &[String]) {
-    let prof = gen::Profile::by_name(&arg_value(args, "--profile").unwrap_or("surjective".into())).expect("profile");
+    let prof = gen::Profile::by_name(&arg_value(args, "--profile").unwrap_or("surjective".into())).unwrap_or_else(gen::Profile::surjective);
     let seed: u64 = arg_value(args, "--seed").map(|s| s.parse().unwrap()).unwrap_or(0);
     let n: usize = arg_value(args, "--count").map(|s| s.parse().unwrap()).unwrap_or(32);
     let build = args.iter().any(|a| a == "--build");
     let show = args.iter().any(|a| a == "--show");
     let tapes = pt::draw_tapes(seed, n, 600);
+    let model_profile = arg_value(args, "--profile").as_deref() == Some("model");
     let results: Vec<(usize, String, String)> = tapes
         .par_iter()
         .enumerate()
         .map(|(i, tape)| {
-            let p = gen::gen_program(tape, &prof);
+            let p = if model_profile { c17::gen_model_program(tape) } else { gen::gen_program(tape, &prof) };
             let text = print::print(&p).text;
             if build {
                 let t0 = std::time::Instant::now();
